@@ -1,2 +1,3 @@
 import LdkModel.Driver.C03
-def main (args : List String) : IO UInt32 := Ldk.Driver.runMain [("c03pay", Ldk.Driver.c03), ("c03e2e", Ldk.Driver.c03)] args
+import LdkModel.Driver.C03Chain
+def main (args : List String) : IO UInt32 := Ldk.Driver.runMain [("c03pay", Ldk.Driver.c03), ("c03e2e", Ldk.Driver.c03), ("c03chain", Ldk.Driver.c03chain)] args
